@@ -28,6 +28,10 @@ impl ABuf {
         let words = total / 16 + 2;
         let mut b = ABuf { backing: vec![0u128; words], shift, len: bytes.len(), pattern, skew };
         b.all_mut().fill(pattern);
+        // the last 16 bytes of the allocation are zero (not part of the guards): a runaway scan for a
+        // NUL terminator stops inside the allocation instead of crashing the harness
+        let n = b.all_mut().len();
+        b.all_mut()[n - 16..].fill(0);
         b.bytes_mut().copy_from_slice(bytes);
         b
     }
@@ -51,7 +55,8 @@ impl ABuf {
         let s = GUARD + self.shift;
         let p = self.pattern;
         let all = self.all();
-        all[..s].iter().all(|b| *b == p) && all[s + self.len..].iter().all(|b| *b == p)
+        let n = all.len();
+        all[..s].iter().all(|b| *b == p) && all[s + self.len..n - 16].iter().all(|b| *b == p)
     }
     /// Extend the buffer at its end with `n` zero bytes (re-allocates).
     pub fn extend_zero(&mut self, n: usize) {
